@@ -7,10 +7,12 @@ export GOFLAGS=-mod=mod GOPROXY=off GOSUMDB=off GOTOOLCHAIN=local
 cd "$wt" || exit 2
 pkg=$(dirname $(git status --short | grep '^??' | grep '_test.go' | head -1 | awk '{print $2}'))
 echo "worktree $wt demo package ./$pkg"
+mkdir -p $wt/.tbase
+base=""; [ "$pkg" = "store" ] && base="-args -base $wt/.tbase"
 go build ./... || { echo BUILD-FAILED; exit 1; }
-go test -vet=off -count=1 ./$pkg -run "$re" -args -base $wt/.tbase > .demo_with.log 2>&1; w=$?
+go test -vet=off -count=1 ./$pkg -run "$re" $base > .demo_with.log 2>&1; w=$?
 git apply -R MUTANT.patch || { echo "cannot reverse patch"; exit 1; }
-go test -vet=off -count=1 ./$pkg -run "$re" -args -base $wt/.tbase > .demo_without.log 2>&1; wo=$?
+go test -vet=off -count=1 ./$pkg -run "$re" $base > .demo_without.log 2>&1; wo=$?
 git apply MUTANT.patch
 echo "demo with change: exit $w (want !=0); without: exit $wo (want 0)"
 if [ "$3" = "suite" ]; then
